@@ -75,6 +75,8 @@ Definition input_of (t : tok) : list input :=
     else if n =? "req_sent" then [IReqSent]
     else if n =? "back_100" then [IBack1xx false]
     else if n =? "back_103" then [IBack1xx true]
+    else if n =? "back_burst_100" then [IBackBurst false]
+    else if n =? "back_burst_103" then [IBackBurst true]
     else if n =? "back_101" then [IBack101]
     else if n =? "back_partial" then [IBackPartial]
     else if n =? "back_head" then [IBackHead]
